@@ -92,6 +92,74 @@ def run_proc(binp, args, env, log, timeout):
     return rc, time.time() - t0
 
 
+def fuzz_leg(pid, cfg, work, base_env, scale):
+    """Native coverage-guided fuzzing (thorough tier only). Returns (stats, violations, notes).
+    Only a crasher file written by the fuzzing engine counts as a violation; any other
+    non-zero exit of the engine is recorded as a note (that leg is then inconclusive)."""
+    stats, viols, notes = [], [], []
+    for fz in cfg.get("fuzz", []):
+        name, secs = fz["name"], max(5, int(fz["secs"] * scale))
+        tdir = os.path.join(HARNESS, cfg["pkg"], "testdata", "fuzz", name)
+        shutil.rmtree(tdir, ignore_errors=True)  # crashers of an earlier run would be replayed as seeds
+        env = dict(base_env, VERIF_OUT=os.path.join(work, "fuzzout"), VERIF_SHARD="fuzz", VERIF_NOJS="1")
+        os.makedirs(env["VERIF_OUT"], exist_ok=True)
+        log = os.path.join(work, "fuzz-%s.log" % name)
+        cmd = ["go", "test", "-tags", "verif", "-vet=off", "-run", "^$", "-fuzz", "^%s$" % name,
+               "-fuzztime", "%ds" % secs, "-parallel", str(fz.get("workers", 16)), "./" + cfg["pkg"] + "/"]
+        t0 = time.time()
+        with open(log, "w") as f:
+            try:
+                rc = subprocess.run(cmd, cwd=HARNESS, env=env, stdout=f, stderr=subprocess.STDOUT, timeout=secs + 600).returncode
+            except subprocess.TimeoutExpired:
+                rc = -999
+        out = open(log, errors="replace").read()
+        execs = [int(x) for x in re.findall(r"execs: (\d+)", out)]
+        inter = [int(x) for x in re.findall(r"new interesting: (\d+)", out)]
+        total = [int(x) for x in re.findall(r"\(total: (\d+)\)", out)]
+        st = dict(target=name, seconds=round(time.time() - t0, 1), execs=max(execs or [0]), new_interesting=max(inter or [0]),
+                  corpus_total=max(total or [0]), exit=rc)
+        crashers = sorted(glob.glob(os.path.join(tdir, "*")))
+        if crashers:
+            keep = os.path.join(VERIF, "replays", pid)
+            os.makedirs(keep, exist_ok=True)
+            for c in crashers:
+                dst = os.path.join(keep, "fuzz-%s-%s" % (name, os.path.basename(c)))
+                shutil.copy(c, dst)
+                m = re.search(r"--- FAIL: .*?\n((?:.*\n){0,12})", out)
+                viols.append((dst, "native fuzzing (%s) found a failing input:\n%s" % (name, (m.group(1) if m else out[-1500:]))))
+            st["crashers"] = len(crashers)
+        elif rc != 0:
+            notes.append("fuzz target %s: engine exited %d without writing a failing input (leg inconclusive); tail:\n%s" % (name, rc, out[-800:]))
+        shutil.rmtree(os.path.join(HARNESS, cfg["pkg"], "testdata"), ignore_errors=True)
+        stats.append(st)
+    return stats, viols, notes
+
+
+def fuzz_replay(pid, cfg, path, base_env):
+    """Re-runs one saved fuzz input (file name fuzz-<Target>-<hash>) through its target."""
+    base = os.path.basename(path)
+    m = re.match(r"fuzz-(Fuzz\w+)-(.+)$", base)
+    if not m:
+        print("cannot tell the fuzz target from the file name", base)
+        return 2
+    name, h = m.group(1), m.group(2)
+    tdir = os.path.join(HARNESS, cfg["pkg"], "testdata", "fuzz", name)
+    shutil.rmtree(tdir, ignore_errors=True)
+    os.makedirs(tdir)
+    shutil.copy(path, os.path.join(tdir, h))
+    env = dict(base_env, VERIF_NOJS="1", VERIF_OUT="/tmp")
+    try:
+        p = subprocess.run(["go", "test", "-tags", "verif", "-vet=off", "-count=1", "-run", "^%s$/^%s$" % (name, re.escape(h)), "./" + cfg["pkg"] + "/"],
+                           cwd=HARNESS, env=env, stdout=subprocess.PIPE, stderr=subprocess.STDOUT, text=True, timeout=900)
+    finally:
+        shutil.rmtree(os.path.join(HARNESS, cfg["pkg"], "testdata"), ignore_errors=True)
+    print(p.stdout[-3000:])
+    if p.returncode != 0:
+        print("VIOLATION property=%s replay=%s" % (pid, path))
+        return 1
+    return 0
+
+
 def main():
     ap = argparse.ArgumentParser()
     ap.add_argument("id")
@@ -136,6 +204,8 @@ def run(a, pid, tier, cfg, pi, work, t0):
     base_env.update(VERIF_OUT=os.path.join(work, "out"), VERIF_REPLAY_DIR=os.path.join(VERIF, "replays"),
                     VERIF_KNOWN=os.path.join(VERIF, "known_findings.jsonl"), VERIF_TIER=tier, VERIF_REPO=REPO,
                     VERIF_HARNESS=HARNESS)
+    if a.replay and os.path.basename(a.replay).startswith("fuzz-"):
+        return fuzz_replay(pid, cfg, os.path.abspath(a.replay), base_env)
     jobs = []
     if a.replay:
         env = dict(base_env, VERIF_REPLAY=os.path.abspath(a.replay), VERIF_SHARD="replay", VERIF_SHARD_SEED="replay")
@@ -172,6 +242,10 @@ def run(a, pid, tier, cfg, pi, work, t0):
             j = futs[f]
             rc, dt = f.result()
             results.append((j, rc, dt))
+
+    fuzz_stats, fuzz_viols, fuzz_notes = [], [], []
+    if tier == "thorough" and not a.replay and cfg.get("fuzz"):
+        fuzz_stats, fuzz_viols, fuzz_notes = fuzz_leg(pid, cfg, work, base_env, a.scale)
 
     # merge parts
     parts = []
@@ -239,6 +313,10 @@ def run(a, pid, tier, cfg, pi, work, t0):
         notes.append("%s shard %s: exit %d without a recorded violation (inconclusive); tail:\n%s" % (j["test"], j["shard"], rc, log[-3000:]))
         status = max(status, 2)
 
+    viol_lines += fuzz_viols
+    notes += fuzz_notes
+    if fuzz_stats:
+        merged["extra"]["native_fuzz"] = fuzz_stats
     seen = set()
     for v in merged["violations"]:
         key = v.get("replay")
